@@ -177,6 +177,7 @@ def stage_b_bodies(run, tier):
     rng = run.rng
     n = 500 if tier == "quick" else 4000
     terms, meta = [], []
+    hangs = 0
     for ci in range(n):
         names = [chr(65 + i) for i in range(rng.randint(1, 8))] + rng.sample(["a b", "x.y", "Ü", "p-1", ""], rng.randint(0, 2))
         mode = rng.random()
@@ -208,10 +209,13 @@ def stage_b_bodies(run, tier):
         mk = lambda e: oai.Reference.model_construct(ref=e[1]) if e[0] == "ref" else oai.RequestBody.model_construct(description=str(e[1]), content={})
         table = {k: mk(v) for k, v in comps.items()}
         try:
-            with deadline(3):
+            if hangs >= 4:
+                break               # the implementation hangs on cycles: enough evidence, do not wait for every remaining case
+            with deadline(1):
                 res = _resolve_reference(None if start is None else mk(start), table)
         except TimeoutError:
             res = "hang"
+            hangs += 1
         if res == "hang":
             obs = "BRFuel (* the implementation did not terminate *)"
         elif res is None:
@@ -742,7 +746,7 @@ def work_meta(args):
 
 def stage_c_meta(run, tier, replay_docs=None):
     rng = run.rng
-    ndocs = 70 if tier == "quick" else 700
+    ndocs = 70 if tier == "quick" else 2000
     jobs = [(rng.randrange(1 << 30), 3 if tier == "quick" else 4, i % 8 == 7) for i in range(ndocs)]
     with cf.ProcessPoolExecutor(max_workers=14) as ex:
         results = list(ex.map(work_meta, jobs, chunksize=2))
@@ -1103,8 +1107,6 @@ def stage_c_schemas(run, tier):
     subsets = [[]] + [[p] for p in allpos] + [list(allpos)]
     for _ in range(4 if tier == "quick" else 60):
         subsets.append(sorted(rng.sample(allpos, rng.randint(2, len(allpos) - 1))))
-    if tier == "quick":
-        subsets = subsets[:1] + rng.sample(subsets[1:len(allpos) + 1], 9) + subsets[len(allpos) + 1:]
     with cf.ProcessPoolExecutor(max_workers=14) as ex:
         results = list(ex.map(work_schema, [(i, s) for i, s in enumerate(subsets)]))
     ref = results[0]
